@@ -544,7 +544,7 @@ NextPin:
 
 	stmt.Close()
 
-	err = sdb.updateHash(tx, id, hashUpdate)
+	err = sdb.updateHash(tx, id, "", hashUpdate)
 	if err != nil {
 		rollback()
 		return fmt.Errorf("Error updating upstream hash: %v", err)
@@ -766,6 +766,18 @@ NextPin:
 			return fmt.Errorf("Error closing rowsPoints: %v", err)
 		}
 
+		// the node may already have children (it is being mirrored or moved),
+		// their hashes are part of the new edge's hash as well
+		childEdges, err := sdb.edges(tx, "SELECT * FROM edges WHERE up=?", nodeID)
+		if err != nil {
+			rollback()
+			return err
+		}
+
+		for _, ce := range childEdges {
+			hashUpdate ^= ce.Hash
+		}
+
 		_, err = tx.Exec(`INSERT INTO edges(id, up, down, hash, type) VALUES (?, ?, ?, ?, ?)`,
 			edge.ID, edge.Up, edge.Down, 0, edge.Type)
 
@@ -798,7 +810,8 @@ NextPin:
 		}
 	}
 
-	err = sdb.updateHash(tx, nodeID, hashUpdate)
+	// edge points are part of this edge only, not of the node's other parents
+	err = sdb.updateHash(tx, nodeID, parentID, hashUpdate)
 	if err != nil {
 		rollback()
 		return fmt.Errorf("Error updating upstream hash: %v", err)
@@ -812,10 +825,13 @@ NextPin:
 	return nil
 }
 
-func (sdb *DbSqlite) updateHash(tx *sql.Tx, id string, hashUpdate uint32) error {
+// updateHash applies hashUpdate to the edges above node id and to all their
+// upstream edges. If parent is set, only the edge from that parent (and
+// what is upstream of it) is updated.
+func (sdb *DbSqlite) updateHash(tx *sql.Tx, id, parent string, hashUpdate uint32) error {
 	// key in edgeCache is up-down
 	cache := make(map[string]uint32)
-	err := sdb.updateHashHelper(tx, id, hashUpdate, cache)
+	err := sdb.updateHashHelper(tx, id, parent, hashUpdate, cache)
 	if err != nil {
 		return err
 	}
@@ -840,13 +856,17 @@ func (sdb *DbSqlite) updateHash(tx *sql.Tx, id string, hashUpdate uint32) error 
 	return nil
 }
 
-func (sdb *DbSqlite) updateHashHelper(tx *sql.Tx, id string, hashUpdate uint32, cache map[string]uint32) error {
+func (sdb *DbSqlite) updateHashHelper(tx *sql.Tx, id, parent string, hashUpdate uint32, cache map[string]uint32) error {
 	edges, err := sdb.edges(tx, "SELECT * FROM edges WHERE down=?", id)
 	if err != nil {
 		return err
 	}
 
 	for _, e := range edges {
+		if parent != "" && e.Up != parent {
+			continue
+		}
+
 		if _, ok := cache[e.ID]; !ok {
 			cache[e.ID] = e.Hash
 		}
@@ -854,7 +874,7 @@ func (sdb *DbSqlite) updateHashHelper(tx *sql.Tx, id string, hashUpdate uint32, 
 		cache[e.ID] ^= hashUpdate
 
 		if e.Up != "none" {
-			err := sdb.updateHashHelper(tx, e.Up, hashUpdate, cache)
+			err := sdb.updateHashHelper(tx, e.Up, "", hashUpdate, cache)
 			if err != nil {
 				return err
 			}
